@@ -78,4 +78,9 @@ theorem text_fetchJWKS_ok : Oidc.Shapes.Text_fetchJWKS := by unfold Oidc.Shapes.
 theorem text_TraefikOidc_startTokenCleanup_ok : Oidc.Shapes.Text_TraefikOidc_startTokenCleanup := by unfold Oidc.Shapes.Text_TraefikOidc_startTokenCleanup; rfl
 theorem text_createStringMap_ok : Oidc.Shapes.Text_createStringMap := by unfold Oidc.Shapes.Text_createStringMap; rfl
 
+/-! the verification path every request's isolation rests on: a verdict is a function of the token, the key set fetched for it and
+    the two caches behind their locks — no other state is shared between requests (a memo next to it would be) -/
+theorem text_TraefikOidc_VerifyJWTSignatureAndClaims_ok : Oidc.Shapes.Text_TraefikOidc_VerifyJWTSignatureAndClaims := by unfold Oidc.Shapes.Text_TraefikOidc_VerifyJWTSignatureAndClaims; rfl
+theorem text_TraefikOidc_VerifyToken_ok : Oidc.Shapes.Text_TraefikOidc_VerifyToken := by unfold Oidc.Shapes.Text_TraefikOidc_VerifyToken; rfl
+
 end Oidc.Props.C05
